@@ -307,11 +307,14 @@ func (o *Operations) archive(
 		},
 
 		func(hdr *config.Header) {
-			o.onHeader(&config.HeaderEvent{
-				Type:    config.HeaderEventTypeArchive,
-				Indexed: true,
-				Header:  hdr,
-			})
+			// The callback is optional here as well
+			if o.onHeader != nil {
+				o.onHeader(&config.HeaderEvent{
+					Type:    config.HeaderEventTypeArchive,
+					Indexed: true,
+					Header:  hdr,
+				})
+			}
 		},
 	)
 }
